@@ -174,6 +174,9 @@ def construct (q : Bool) (c : Cls) (name : String) (v : PyVal) : Outcome :=
     | .atom (.npdtype (some d)) => .ok (v, { name, type := INT, i := Generated.TensorEnum.enumOf d })
     | .atom (.npdtype none) =>
       if dtypeCatches.contains "ValueError" then .error .typeError else .error .valueError
+    | .seq _ =>
+      -- `np.dtype((int, -1))`: numpy reports a malformed specification with ValueError
+      if dtypeSpecCatches.contains "ValueError" then .error .typeError else .error .valueError
     | _ => .error .typeError        -- `np.dtype(x)` itself raises TypeError
   | .graph =>
     match v with
